@@ -1344,6 +1344,29 @@ func runWSSClose(c *Ctx, r *Reporter) {
 
 // lastConsumingCalls: walking backwards from ret, the nearest token-consuming calls; returns those that are direct calls of `advance`.
 func lastConsumingCalls(ret *ssa.Return, a *eolAnalysis, adv *ssa.Function) []ssa.Instruction {
+	return lastConsumingCallsDepth(ret, a, adv, 0)
+}
+
+// closingHelper: a token-consuming helper that does not itself produce a node (no result, or a bool/error result).
+func closingHelper(fn *ssa.Function) bool {
+	if fn == nil || len(fn.Blocks) == 0 {
+		return false
+	}
+	res := fn.Signature.Results()
+	for i := 0; i < res.Len(); i++ {
+		switch t := res.At(i).Type().Underlying().(type) {
+		case *types.Basic:
+			if t.Kind() != types.Bool {
+				return false
+			}
+		default:
+			return false
+		}
+	}
+	return true
+}
+
+func lastConsumingCallsDepth(ret *ssa.Return, a *eolAnalysis, adv *ssa.Function, depth int) []ssa.Instruction {
 	var bad []ssa.Instruction
 	seen := map[*ssa.BasicBlock]bool{}
 	var walk func(b *ssa.BasicBlock, from int)
@@ -1359,6 +1382,14 @@ func lastConsumingCalls(ret *ssa.Return, a *eolAnalysis, adv *ssa.Function) []ss
 			}
 			if sc == adv {
 				bad = append(bad, call)
+			} else if depth < 3 && closingHelper(sc) {
+				// a helper that asserts the delimiter and advances past it (advancePastRBracket): its own last consuming step counts
+				for _, hret := range returnsOf(sc) {
+					if len(lastConsumingCallsDepth(hret, a, adv, depth+1)) > 0 {
+						bad = append(bad, call)
+						break
+					}
+				}
 			}
 			return
 		}
